@@ -24,11 +24,14 @@ MANIFEST = {
             "opening); before os_Open (CAN not opened or < 200 ms settle) sends return false and nothing is produced; while a "
             "device's claim is pending or it holds an address above 251 every send but PGN 60928 returns false and produces nothing, "
             "and whatever is produced carries the claim identifier; the claim window is characterised exactly for both timer "
-            "builds, for every clock origin including the 32-bit wrap. Partial: handlers triggered by received traffic are covered "
-            "by the gate theorem only through the structural argument that they all call SendMsg. Correspondence: real node behind "
+            "builds, for every clock origin including the 32-bit wrap. Handlers triggered by received traffic are covered "
+            "by the gate theorem through the call-structure obligations (every frame reaches the driver through SendMsg or the queue flush). Correspondence: real node behind "
             "a mock driver, un-opened and opened, both timer builds, origins near 2^31/2^32, CANOpen failures, sends inside and at "
             "the edge of claim windows; oracle knows only open time, mode and the claim ops it issued.",
     'design_ref': 'DESIGN.md section 4, C04',
-    'note': "partial: gate + open machine + claim window are proved; the composition with request/group-function/TP responders "
-            "and heartbeat (which all call SendMsg) is argued structurally and exercised by the C08-C10/C12 harnesses.",
+    'note': "gate + open machine + claim window are proved for the model; that the responders (request / group-function / TP / heartbeat / "
+            "address claim) can transmit only through that gate is a kernel-checked obligation over the call sites extracted from the "
+            "clang AST on every run (N2k/Props/CallGraph.lean: CANSendFrame is called only by SendFrame/SendFrames, SendFrame only by "
+            "SendMsg, SendFrames only by SendFrame and ParseMessages), and the whole-node harness monitors it dynamically (listen-only, "
+            "null address, claim window incl. commanded addresses and multi-device nodes).",
 }
